@@ -23,7 +23,7 @@ from common import REPO, cnat, clist, cbool, cstr
 
 LEVEL = "proof"
 THEOREMS = "Props/C20.v"
-EXTRA_TARGETS = ("Gen/OverwritePrograms.vo", "Overwrite/Predict.vo")
+EXTRA_TARGETS = ("Gen/OverwritePrograms.vo", "Gen/OverwriteChecks.vo", "Overwrite/Predict.vo")
 EXTS = ["xtc", "trr", "dcd", "dtr"]
 RULE = ("grid: extension accepted by Trajectory.save / md.open('w') x pre-existing content {absent, valid same "
         "format, longer valid file, unrelated bytes, directory} x entry {save, open+write, open only} x frames "
@@ -889,24 +889,105 @@ def translate_saver(fn, ctor_force_default):
     return st.block(fn.body, ctx)
 
 
+ALL_KINDS = {"str", "rel", "weird", "slash", "path", "pathlike", "bytes"}
+KIND_OF_TYPE = {"os.PathLike": {"path", "pathlike"}, "PathLike": {"path", "pathlike"}, "pathlib.Path": {"path"},
+                "Path": {"path"}, "pathlib.PurePath": {"path"}, "PurePath": {"path"},
+                "str": {"str", "rel", "weird", "slash"}, "bytes": {"bytes"}}
+
+
+def _loader_call(call):
+    """(farg or None = constructor default, mode: 'MW' when the caller's mode is forwarded, else the literal/default)"""
+    kws = {k.arg: k.value for k in call.keywords}
+    a = call.args
+    p = a[0] if a else None
+    if isinstance(p, ast.Call) and dotted(p.func) in ("os.fspath", "str", "os.fsdecode") and p.args:
+        p = p.args[0]
+    if not (isinstance(p, ast.Name) and p.id == "filename"):
+        raise Outside("md.open does not pass the filename through")
+    m = kws.get("mode", a[1] if len(a) > 1 else None)
+    if m is None:
+        mode = None                     # constructor default mode
+    elif isinstance(m, ast.Name) and m.id == "mode":
+        mode = "pass"
+    elif isinstance(m, ast.Constant) and m.value in MODES:
+        mode = MODES[m.value]
+    else:
+        raise Outside("md.open computes the mode")
+    f = kws.get("force_overwrite", a[2] if len(a) > 2 else None)
+    if f is None:
+        farg = None
+    elif isinstance(f, ast.Name) and f.id == "force_overwrite":
+        farg = "FPass"
+    elif isinstance(f, ast.Constant) and isinstance(f.value, bool):
+        farg = "(FLit %s)" % cbool(f.value)
+    else:
+        raise Outside("md.open computes force_overwrite")
+    return farg, mode
+
+
+def _kinds_of_test(t):
+    if isinstance(t, ast.UnaryOp) and isinstance(t.op, ast.Not):
+        return ALL_KINDS - _kinds_of_test(t.operand)
+    if isinstance(t, ast.BoolOp) and isinstance(t.op, ast.Or):
+        k = set()
+        for v in t.values:
+            k |= _kinds_of_test(v)
+        return k
+    if isinstance(t, ast.Call) and dotted(t.func) == "isinstance" and len(t.args) == 2 \
+            and isinstance(t.args[0], ast.Name) and t.args[0].id == "filename":
+        ty = t.args[1]
+        tys = ty.elts if isinstance(ty, ast.Tuple) else [ty]
+        k = set()
+        for x in tys:
+            d = dotted(x)
+            if d not in KIND_OF_TYPE:
+                raise Outside("md.open tests the filename against %s" % d)
+            k |= KIND_OF_TYPE[d]
+        return k
+    raise Outside("md.open branches on a condition that is not an isinstance test of the filename")
+
+
 def translate_md_open(fn):
-    """md.open must hand mode and force_overwrite on unchanged"""
-    for n in ast.walk(fn):
-        if isinstance(n, ast.Return) and isinstance(n.value, ast.Call) and dotted(n.value.func) == "loader":
-            kws = {k.arg: k.value for k in n.value.keywords}
-            a = n.value.args
-            ok_path = bool(a) and isinstance(a[0], ast.Name) and a[0].id == "filename"
-            m, f = kws.get("mode"), kws.get("force_overwrite")
-            if not ok_path or not (isinstance(m, ast.Name) and m.id == "mode"):
-                raise Outside("md.open does not pass filename/mode through")
-            if f is None:
-                return None       # constructor default applies
-            if isinstance(f, ast.Name) and f.id == "force_overwrite":
-                return "FPass"
-            if isinstance(f, ast.Constant) and isinstance(f.value, bool):
-                return "(FLit %s)" % cbool(f.value)
-            raise Outside("md.open computes force_overwrite")
-    raise Outside("md.open: no `return loader(...)`")
+    """every `return loader(...)` of md.open with the argument kinds that reach it, in source order:
+    [(label, kinds or None for the final unconditional return, farg, mode)]"""
+    out = []
+
+    def returns_loader(node):
+        return [n for n in ast.walk(node) if isinstance(n, ast.Return) and isinstance(n.value, ast.Call)
+                and dotted(n.value.func) == "loader"]
+
+    for st in fn.body:
+        rl = returns_loader(st)
+        if not rl:
+            continue
+        if isinstance(st, ast.Return):
+            farg, mode = _loader_call(st.value)
+            out.append(("default", None, farg, mode))
+        elif isinstance(st, ast.If):
+            chain, cur = [], st
+            while True:
+                rb = returns_loader(ast.Module(body=cur.body, type_ignores=[]))
+                if len(rb) != 1:
+                    raise Outside("md.open: branch without exactly one `return loader(...)`")
+                chain.append((_kinds_of_test(cur.test), rb[0].value))
+                if len(cur.orelse) == 1 and isinstance(cur.orelse[0], ast.If):
+                    cur = cur.orelse[0]
+                    continue
+                if cur.orelse:
+                    ro = returns_loader(ast.Module(body=cur.orelse, type_ignores=[]))
+                    if len(ro) != 1:
+                        raise Outside("md.open: else branch shape")
+                    chain.append((None, ro[0].value))
+                break
+            for kinds, call in chain:
+                farg, mode = _loader_call(call)
+                label = "default" if kinds is None else "b%d" % len(out)
+                out.append((label, kinds, farg, mode))
+        else:
+            raise Outside("md.open: `return loader(...)` inside %s" % type(st).__name__)
+    if not out or out[-1][1] is not None:
+        raise Outside("md.open: no unconditional `return loader(...)`")
+    return out
 
 
 def build_gen(repo):
@@ -915,7 +996,7 @@ def build_gen(repo):
     info = {"degraded": {}, "classes": {}, "savers": {}}
     lines = ["(* GENERATED by harness/props/C20.py from the mdtraj sources on every run. Do not edit. *)",
              "From Coq Require Import List String Bool.", "Import ListNotations.",
-             "Require Import MD.Overwrite.Model MD.Overwrite.Reference.", "Open Scope string_scope.", ""]
+             "Require Import MD.Overwrite.Model MD.Overwrite.Reference.", "Local Open Scope string_scope.", ""]
     ctor_force_default = {}
     keys = []
     for entry in CLASSES:
@@ -953,12 +1034,15 @@ def build_gen(repo):
         saver_names.append(name)
         lines.append("")
     try:
-        of = translate_md_open(mod_fns["open"])
-        info["md_open"] = of or "constructor default"
+        branches = translate_md_open(mod_fns["open"])
+        info["md_open"] = [{"label": l, "kinds": sorted(k) if k else None, "force": f or "constructor default",
+                            "mode": m or "constructor default"} for l, k, f, m in branches]
     except (Outside, KeyError) as e:
         info["degraded"]["md.open"] = str(e)
-        of = "FPass"
-    ext_rows, open_rows, read_rows = [], [], []
+        branches = [("default", None, "FPass", "pass")]
+        info["md_open"] = [{"label": "default", "kinds": None, "force": "FPass", "mode": "pass"}]
+    info["md_open_branches"] = [(l, sorted(k) if k else None) for l, k, _f, _m in branches]
+    ext_rows, open_rows, read_rows, direct_rows = [], [], [], []
     for ext in PROPERTY_EXTS:
         if ext not in stab or stab[ext] in NOT_MODELLED_SAVERS:
             raise Outside("extension .%s has no modelled saver" % ext)
@@ -966,15 +1050,25 @@ def build_gen(repo):
             raise Outside("extension .%s has no modelled file class" % ext)
         k = CLASS_BY_NAME[ftab[ext]]
         ext_rows.append('("%s", %s)' % (ext, stab[ext]))
-        fa = of if of is not None else "(FLit %s)" % cbool(bool(ctor_force_default.get(k, True)))
-        open_rows.append('("%s", SWith ctor_%s MW %s)' % (ext, k, fa))
+        for label, _kinds, farg, mode in branches:
+            fa = farg if farg is not None else "(FLit %s)" % cbool(bool(ctor_force_default.get(k, True)))
+            md = "MW" if mode == "pass" else (mode if mode is not None else "MR")   # every file class defaults to mode='r'
+            key = ext if label == "default" else "%s@%s" % (ext, label)
+            open_rows.append('("%s", SWith ctor_%s %s %s)' % (key, k, md, fa))
+        direct_rows.append('("%s", SWith ctor_%s MW FPass)' % (ext, k))
         read_rows.append('("%s", ctor_%s)' % (ext, k))
     info["ext_saver"] = {e: stab[e] for e in PROPERTY_EXTS}
     info["ext_class"] = {e: ftab[e] for e in PROPERTY_EXTS}
     lines.append("Definition savers : list (string * sstmt) :=\n  [%s]." % ";\n   ".join(ext_rows))
     lines.append("Definition openers : list (string * sstmt) :=\n  [%s]." % ";\n   ".join(open_rows))
+    lines.append("(* the file class called directly: Cls(path, 'w', force_overwrite=fo) *)")
+    lines.append("Definition direct : list (string * sstmt) :=\n  [%s]." % ";\n   ".join(direct_rows))
     lines.append("Definition readers : list (string * stmt) :=\n  [%s]." % ";\n   ".join(read_rows))
     lines.append("")
+    defs_text = "\n".join(lines) + "\n"
+    lines = ["(* GENERATED by harness/props/C20.py: obligations about Gen/OverwritePrograms.v, re-proved on every run. *)",
+             "From Coq Require Import List String Bool.", "Import ListNotations.",
+             "Require Import MD.Overwrite.Model MD.Gen.OverwritePrograms.", ""]
     # obligations re-proved on every run, by computation (reflection)
     for k in keys:
         lines.append("Lemma guarded_%s : check_guarded ctor_%s = true. Proof. vm_compute. reflexivity. Qed." % (k, k))
@@ -993,16 +1087,18 @@ def build_gen(repo):
                  "savers = true. Proof. vm_compute. reflexivity. Qed.")
     lines.append("Lemma all_openers_checked : forallb (fun x => check_save (snd x) && check_save_truncates (snd x)) "
                  "openers = true. Proof. vm_compute. reflexivity. Qed.")
-    return "\n".join(lines) + "\n", info
+    info["checks_text"] = "\n".join(lines) + "\n"
+    return defs_text, info
 
 
 def translate(ctx):
     text, info = build_gen(REPO)
     ctx.write_gen("Gen/OverwritePrograms.v", text)
+    ctx.write_gen("Gen/OverwriteChecks.v", info["checks_text"])
     ctx.notes.setdefault("coverage_extra", {})["translator"] = {
         "classes_translated": sorted(k for k, v in info["classes"].items() if v == "translated"),
         "savers_translated": sorted(info["savers"]), "degraded": info["degraded"], "md_open": info.get("md_open"),
-        "reflection_lemmas_in_Gen": len(re.findall(r"^Lemma ", text, re.M))}
+        "reflection_lemmas_in_Gen": len(re.findall(r"^Lemma ", info["checks_text"], re.M))}
     if info["degraded"]:
         ctx.notes["translator"] = "degraded: %s" % info["degraded"]
         ctx.log("translator degraded for", info["degraded"])
@@ -1011,6 +1107,9 @@ def translate(ctx):
 
 # ============================================================================ correspondence and oracle
 SINGLE_FRAME = {"rst7", "ncrst"}
+# (extension, argument kind) whose handling is a recorded finding (known_findings/C20.json): the effect programs say
+# nothing about argument types, so these cases are judged by the sha256 oracle only, not compared with the model
+NOT_MODELLED_ARGS = {("dtr", "slash"), ("nc", "pathlike"), ("netcdf", "pathlike"), ("ncdf", "pathlike")}
 READ_OPS = ["load", "load_stride", "load_atoms", "load_frame", "iterload", "open_read", "open_force_true", "len_seek", "load_topology"]
 
 
@@ -1036,6 +1135,21 @@ def build_cases(ctx):
                     for frames in ([3] if quick else [2, 3]):
                         cases.append({"kind": "write", "ext": ext, "entry": "save", "pre": pre, "pre_at": pre_at,
                                       "frames": frames, "force": force})
+    # argument-type axis of every entry point: str, pathlib.Path, another os.PathLike, bytes, a relative path, a
+    # directory with capitals / spaces / dots in its name, a trailing slash (dtr); also the file class called directly
+    for ext in PROPERTY_EXTS:
+        for entry in ("save", "open", "open_only", "class"):
+            kinds = ["path", "pathlike", "bytes", "rel", "weird"] + (["slash"] if ext == "dtr" else [])
+            if entry == "class":
+                kinds = ["str"] + kinds
+            for arg in kinds:
+                for pre in ((0, 3) if quick else (0, 1, 3, 4)):
+                    for force in (False, True):
+                        fr = 1 if (entry != "save" or ext in SINGLE_FRAME) else 2
+                        if quick and arg in ("bytes", "pathlike") and pre == 0 and force:
+                            continue
+                        cases.append({"kind": "write", "ext": ext, "entry": entry, "pre": pre, "pre_at": 0,
+                                      "frames": fr, "force": force, "arg": arg})
     reads = [{"kind": "read", "ext": ext, "op": op} for ext in PROPERTY_EXTS for op in READ_OPS]
     if not quick:
         # a random extra stream over the whole grid (repeats catch order/time dependent behaviour)
@@ -1069,9 +1183,13 @@ def run_cases(ctx, cases):
     res = ctx.run_impl("overwrite_impl.py", {"cases": writes, "reads": reads})
     # ---------------- the property itself, on the implementation (oracle)
     for c, o in zip(writes, res["cases"]):
-        ctx.count(c, nontrivial=c["pre"] != 0, bucket="%s/%s/force=%s" % (c["entry"], "pre" if c["pre"] else "fresh", c["force"]))
+        ctx.count(c, nontrivial=c["pre"] != 0, bucket="%s/%s/force=%s/%s" % (
+            c["entry"], "pre" if c["pre"] else "fresh", c["force"], c.get("arg", "str")))
         st = o["status"]
-        tags = {"ext": c["ext"], "entry": c["entry"], "force": c["force"], "pre": c["pre"]}
+        tags = {"ext": c["ext"], "entry": c["entry"], "force": c["force"], "pre": c["pre"], "arg": c.get("arg", "str")}
+        if o.get("stray_cwd"):
+            ctx.fail("%s: output went to a path that is not the one given (%s)" % (c["ext"], o["stray_cwd"][0][:40]), c,
+                     observed=o, expected="the given path", tags=dict(tags, kind="misdirected"))
         if o["stray"]:
             ctx.fail("%s: operation leaves unexpected files next to the target" % c["ext"], c, observed=o,
                      expected="only the target paths", tags=dict(tags, kind="stray"))
@@ -1105,14 +1223,37 @@ def run_cases(ctx, cases):
             ctx.fail("%s: read entry point %s altered the file or created files" % (c["ext"], c["op"]), c, observed=o,
                      expected="directory byte-identical", tags={"ext": c["ext"], "op": c["op"], "kind": "read_modifies"})
     # ---------------- the tie: translated programs predict exactly what happened
+    branches = getattr(ctx, "c20_info", {}).get("md_open_branches") or [("default", None)]
+
+    def open_key(c):
+        """key of the md.open branch an argument of this kind reaches (Gen.openers)"""
+        kind = c.get("arg", "str")
+        for label, kinds in branches:
+            if kinds is None or kind in kinds:
+                return c["ext"] if label == "default" else "%s@%s" % (c["ext"], label)
+        return c["ext"]
+
+    def type_rejected(c, o):
+        """an argument type the entry point does not accept: it raised and touched nothing. That satisfies the
+        property; the effect programs do not model argument types, so such a case is not compared with them"""
+        if (c["ext"], c.get("arg")) in NOT_MODELLED_ARGS:
+            return True
+        return c.get("arg", "str") in ("path", "pathlike", "bytes", "slash") and o["raised"] is not None \
+            and all(x == "Unchanged" for x in o["status"]) and not o["stray"]
+
+    n_rej = 0
     cc = []
     idx = []
     for i, (c, o) in enumerate(zip(writes, res["cases"])):
+        if type_rejected(c, o):
+            n_rej += 1
+            continue
         if c["entry"] == "open_only":
             continue
-        entry = 0 if c["entry"] == "save" else 1
+        entry = {"save": 0, "open": 1, "class": 2}[c["entry"]]
         frames = c["frames"] if c["entry"] == "save" else 1
-        cc.append(("(%s, %s, %s, %s, %s, %s)" % (cstr(c["ext"]), cnat(entry), cnat(model_pre(c)), cnat(c["pre_at"]),
+        key = open_key(c) if c["entry"] == "open" else c["ext"]
+        cc.append(("(%s, %s, %s, %s, %s, %s)" % (cstr(key), cnat(entry), cnat(model_pre(c)), cnat(c["pre_at"]),
                                                cnat(frames), cbool(c["force"])),
                    "Some (%s, %s)" % (cbool(o["raised"] is not None), clist(o["status"]))))
         idx.append(i)
@@ -1121,9 +1262,9 @@ def run_cases(ctx, cases):
                                    "res_eqb", "predict_case", cc)
     c1, idx1 = [], []
     for i, (c, o) in enumerate(zip(writes, res["cases"])):
-        if c["entry"] != "open_only":
+        if c["entry"] != "open_only" or type_rejected(c, o):
             continue
-        c1.append(("(%s, %s, %s)" % (cstr(c["ext"]), cnat(model_pre(c)), cbool(c["force"])),
+        c1.append(("(%s, %s, %s)" % (cstr(open_key(c)), cnat(model_pre(c)), cbool(c["force"])),
                    "Some (%s, %s)" % (cbool(o["raised"] is not None), o["status"][0])))
         idx1.append(i)
     bad1, errs1 = ctx.coq_mismatches(["MD.Overwrite.Model", "MD.Overwrite.Predict"],
@@ -1132,6 +1273,8 @@ def run_cases(ctx, cases):
     if errs or errs1:
         ctx.break_("correspondence:coqc-evaluation", "\n".join(errs + errs1))
         return
+    ctx.notes.setdefault("coverage_extra", {})["argument_type_rejected_cases"] = \
+        ctx.notes.get("coverage_extra", {}).get("argument_type_rejected_cases", 0) + n_rej
     wrong = [idx[b] for b in bad] + [idx1[b] for b in bad1]
     by_ext = {}
     for i in wrong:
@@ -1166,4 +1309,9 @@ def search(ctx, broken):
 
 def replay(ctx, rec):
     c = rec["case"]
+    try:
+        _t, info = build_gen(REPO)
+        ctx.c20_info = info
+    except Exception:  # noqa: BLE001
+        pass
     run_cases(ctx, [c])
